@@ -1,12 +1,13 @@
 (* C17 — attribution is observation-only and truthful about tokens.
-   STATUS (partial): the model threads attribution exactly like the code and is compared
-   with it entry by entry; truthfulness is judged per input with independent tokenisations.
-   Proved: what decides the string never looks at the attribution stack for the capacity
-   lookups (extensionality), and the two offset repairs are reflected (examples). *)
+   Proved for the DECODER, all strings / tables / flags, no side condition (proofs/AttrFacts.v):
+   decoder(x, attribute=False) is decoder(x, attribute=True) with the attribution erased - same
+   outcome (value or exception class), same string, same output indices and tokens.
+   Not theorems (judged per input on every run): the same for the encoder, and truthfulness of the
+   entries (independent tokenisations in the harness; exact lists compared with the model). *)
 From Coq Require Import String List ZArith NArith Bool.
 Import ListNotations.
 From Selfies Require Import Base Generated Atoms Grammar Decoder PySet Matching Smiles Kekulize Encoder
-  IndexSpec IndexCode Reader DocGrammar RoundTrip EncoderFacts PureFacts.
+  IndexSpec IndexCode Reader DocGrammar RoundTrip EncoderFacts PureFacts AttrFacts.
 Local Open Scope string_scope.
 
 Theorem C17_offsets_partial :
@@ -20,4 +21,35 @@ Theorem C17_offsets_partial :
    | Err _ => false end) = true.
 Proof. split; vm_compute; reflexivity. Qed.
 
+
+(* observation-only, decoder side: for every table (indeed every capacity lookup), string and flag *)
+Theorem C17_decoder_observation_only_partial : forall T s compat,
+  decoder T s compat false = map_res strip_result (decoder T s compat true).
+Proof. intros T s compat. exact (decoder_attribute_observation_only (get_bonding_capacity T) s compat). Qed.
+
+Corollary C17_decoder_same_string : forall T s compat out maps,
+  decoder T s compat true = Ok (out, maps) ->
+  decoder T s compat false = Ok (out, map strip_amap maps) /\ decoder_str T s compat = Ok out.
+Proof.
+  intros T s compat out maps E. pose proof (C17_decoder_observation_only_partial T s compat) as H. rewrite E in H.
+  split; [exact H|]. unfold decoder_str. rewrite H. reflexivity.
+Qed.
+
+Corollary C17_decoder_same_error : forall T s compat e,
+  decoder T s compat true = Err e <-> decoder T s compat false = Err e.
+Proof.
+  intros T s compat e. pose proof (C17_decoder_observation_only_partial T s compat) as H.
+  destruct (decoder T s compat true) as [[o mp]|e']; cbn in H; rewrite H; split; intro X; congruence.
+Qed.
+
+(* non-vacuity: an attributed decode with branches and a ring *)
+Example C17_example :
+  match decoder default_constraints (lit "[C][=C][Branch1][C][O][C][Ring1][Branch1]") false true with
+  | Ok (s, maps) => (3 <=? length maps)%nat && existsb (fun m => match am_attr m with Some (_ :: _ :: _) => true | _ => false end) maps
+  | Err _ => false end = true.
+Proof. vm_compute. reflexivity. Qed.
+
 Print Assumptions C17_offsets_partial.
+Print Assumptions C17_decoder_observation_only_partial.
+Print Assumptions C17_decoder_same_string.
+Print Assumptions C17_decoder_same_error.
